@@ -137,6 +137,13 @@ def discrete_models(kind):
         y = lsl.obs(jnp.asarray([0.7, 1.2, 0.6], jnp.float32), lsl.Dist(tfd.Normal, loc=lsl.Calc(lambda z: 0.5 * z, z), scale=0.8),
                     name="y")
         return lsl.GraphBuilder().add(y).build_model(), None, [0.0, 1.0, 2.0]
+    if kind == "residual_weak_dist":
+        # the discrete variable enters through the *evaluation point* of a distribution: a weak variable (residual)
+        # that carries the likelihood
+        z = lsl.Var(jnp.asarray(1), lsl.Dist(tfd.Bernoulli, probs=lsl.Value(0.4)), name="z")
+        yd = lsl.Var(jnp.asarray([0.9, 1.4, 0.3], jnp.float32), name="ydata")
+        resid = lsl.Var(lsl.Calc(lambda y, z: y - 1.2 * z, yd, z), lsl.Dist(tfd.Normal, loc=0.0, scale=0.7), name="resid")
+        return lsl.GraphBuilder().add(resid).build_model(), [0, 1], [0, 1]
     if kind == "bernoulli_tempered":
         # the model's joint density is a user-supplied (tempered) log-prob node
         z = lsl.Var(jnp.asarray(1), lsl.Dist(tfd.Bernoulli, probs=lsl.Value(0.3)), name="z")
